@@ -101,6 +101,18 @@ func vInstallSignStubs() {
 		return vS.sigR, vS.sigS, nil
 	})
 	VStub("(*math/big.Int).Bytes", func(z *big.Int) []byte { return []byte(vS.bigBytes[z]) })
+	// FillBytes: the magnitude right-aligned in buf, zero-extended on the left (panics if it does not fit)
+	VStub("(*math/big.Int).FillBytes", func(z *big.Int, buf []byte) []byte {
+		m := vS.bigBytes[z]
+		if len(m) > len(buf) {
+			panic("math/big: buffer too small to fit value")
+		}
+		for i := range buf {
+			buf[i] = 0
+		}
+		copy(buf[len(buf)-len(m):], m)
+		return buf
+	})
 	VStub("(*math/big.Int).SetBytes", func(z *big.Int, b []byte) *big.Int {
 		vS.bigBytes[z] = string(b)
 		return z
